@@ -1449,6 +1449,29 @@ func (x *Exec) checkNewFieldsZeroed(s *State) {
 			x.note("zeroes_unclassified_fields: " + tk + "." + name + " is never read in the repository; not required to be reset")
 			continue
 		}
+		if !x.P.fieldWrittenByMethod(nt, st, i) {
+			// set by constructors only: configuration, the same in a fresh instance
+			x.note("zeroes_unclassified_fields: " + tk + "." + name + " is written by no method of the type (configuration set at construction); not required to be reset")
+			continue
+		}
+		assigned := false
+		for _, lf := range ls {
+			n := x.arrName(tk + "." + name + lf.Suffix)
+			cur, ok := s.heap[n]
+			init := "H0." + n
+			if e, ok2 := x.entryHeap[n]; ok2 {
+				init = e
+			}
+			if ok && cur != init {
+				assigned = true
+			}
+		}
+		if assigned {
+			// the method does give the field a value; whether that is the constructor's value cannot be
+			// said without a contract that knows the field
+			x.note("zeroes_unclassified_fields: " + tk + "." + name + " is assigned by " + fnName(x.fn) + "; its reset value is not compared with the constructor's")
+			continue
+		}
 		z := zeroVal(f.Type())
 		var eqs []string
 		for j, lf := range ls {
@@ -1526,4 +1549,38 @@ func onlyFeedsItself(ld *ssa.UnOp, st *types.Struct, idx int) bool {
 		}
 	}
 	return true
+}
+
+// fieldWrittenByMethod: some function with a receiver of type nt (or a closure inside one)
+// stores into field idx of struct st.
+func (p *Prog) fieldWrittenByMethod(nt *types.Named, st *types.Struct, idx int) bool {
+	for _, f := range p.fnByID {
+		outer := f
+		for outer.Parent() != nil {
+			outer = outer.Parent()
+		}
+		recv := outer.Signature.Recv()
+		if recv == nil {
+			continue
+		}
+		rt := types.Unalias(recv.Type())
+		if pt, ok := rt.(*types.Pointer); ok {
+			rt = types.Unalias(pt.Elem())
+		}
+		if rn, ok := rt.(*types.Named); !ok || rn.Obj() != nt.Obj() {
+			continue
+		}
+		for _, b := range f.Blocks {
+			for _, in := range b.Instrs {
+				sto, ok := in.(*ssa.Store)
+				if !ok {
+					continue
+				}
+				if fa, ok := sto.Addr.(*ssa.FieldAddr); ok && structOf(fa.X.Type()) == st && fa.Field == idx {
+					return true
+				}
+			}
+		}
+	}
+	return false
 }
